@@ -116,6 +116,73 @@ def check_eat_data_resets(P, R, rid):
     return f
 
 
+def check_extra_state(P, R, rid_e, rid_c):
+    bmk = P.cls(f'{MP}:BodyMarkuper')
+    ed = P.func(f'{MP}:BodyMarkuper._eat_data')
+    er = eat_data_roles(P)
+    # MatchTail: match_tail gives up at the first candidate head longer than the slice, so candidates must be stored shortest first
+    mt_init = P.func(f'{MP}:MatchTail.__init__')
+    mt_match = P.func(f'{MP}:MatchTail.match_tail')
+    early = [n for n in mt_match.cfg.nodes if n.kind == 'test' and compare_parts(n.ast) and compare_parts(n.ast)[1] is ast.Lt
+             and is_const(compare_parts(n.ast)[2], 0) and any(s.kind == 'stmt' and isinstance(s.ast, ast.Return) for s in T.succ_by_label(n, 'true'))
+             and T.loops_of(n.ast)]
+    fl = [n for n in walk_shallow(mt_init.node) if isinstance(n, ast.For)]
+    R.require(fl, 'MatchTail.__init__: index-building loop not found')
+    it = fl[0].iter
+    asc = (isinstance(it, ast.Call) and dotted(it.func) == 'enumerate') or \
+        (isinstance(it, ast.Call) and dotted(it.func) == 'range' and not (len(it.args) == 3 and isinstance(it.args[2], ast.UnaryOp)))
+    rev = any(isinstance(x, ast.Call) and (dotted(x.func) in ('reversed', 'sorted') or call_attr(x) in ('reverse', 'sort', 'insert')) for x in ast.walk(mt_init.node))
+    ok = (not early) or (asc and not rev)
+    R.ob(rid_e, mt_init, fl[0], ok, text='delimiter heads are indexed shortest first (match_tail stops at the first head that is too long)', detail='' if ok else
+         'the candidate heads of a symbol are stored longest first, but match_tail returns at the first candidate longer than the slice: shorter '
+         'matching heads are never tried for a short chunk tail, so a delimiter cut inside its leading dashes is not carried over',
+         why='a read boundary inside the delimiter must not change the result', key_extra='matchtail-order')
+    # the partial-delimiter remainder and its recorded length agree wherever both are set
+    for fn in (bmk.methods['_eat_start_boundary'], ed):
+        for st in walk_shallow(fn.node):
+            pairs = {}
+            if isinstance(st, ast.Assign):
+                t, v = st.targets[0], st.value
+                if isinstance(t, ast.Tuple) and isinstance(v, ast.Tuple) and len(t.elts) == len(v.elts):
+                    for tt, vv in zip(t.elts, v.elts):
+                        pairs[dotted(tt) or ''] = vv
+        # collect per basic block: consecutive assignments to X.trest / X.trest_len
+        stmts = [s for s in walk_shallow(fn.node) if isinstance(s, ast.Assign)]
+        def _last(name):
+            return name.split('.')[-1]
+        vals = {}
+        for s in stmts:
+            t, v = s.targets[0], s.value
+            items = list(zip(t.elts, v.elts)) if isinstance(t, ast.Tuple) and isinstance(v, ast.Tuple) and len(t.elts) == len(v.elts) else [(x, v) for x in s.targets]
+            names = {_last(dotted(a) or ''): b for a, b in items}
+            role_t = 'trest' if fn is not ed else er['trest']
+            role_l = 'trest_len' if fn is not ed else er['trest_len']
+            if fn is not ed:
+                # self.trest = X ... self.trest_len = Y in the same block
+                if 'trest' in names and not is_const(names['trest'], None):
+                    vals['t'] = (s, names['trest'])
+                if 'trest_len' in names and not is_const(names['trest_len'], None):
+                    vals['l'] = (s, names['trest_len'])
+                if 't' in vals and 'l' in vals:
+                    X, Y = vals['t'][1], vals['l'][1]
+                    ok = isinstance(Y, ast.Call) and dotted(Y.func) == 'len' and src(Y.args[0]) == src(X)
+                    R.ob(rid_c, fn, vals['l'][0], ok, text=f'remainder {short(X)} recorded with length {short(Y)}', detail='' if ok else
+                         f'the remainder `{short(X)}` is recorded with the length `{short(Y)}`, which is not len() of it: the continuation of a delimiter cut by the '
+                         f'read boundary is compared over the wrong width and never matches',
+                         why='an opening delimiter split across two reads must parse like one read', key_extra='len-agree')
+                    vals = {}
+            else:
+                if role_t in names and role_l in names and isinstance(names[role_t], ast.Subscript) \
+                        and not (isinstance(names[role_t].value, ast.Name) and names[role_t].value.id == role_t):
+                    X, Y = names[role_t], names[role_l]
+                    # (tlen - k, token[k:])
+                    ok = isinstance(X, ast.Subscript) and isinstance(X.slice, ast.Slice) and X.slice.lower is not None and isinstance(Y, ast.BinOp) \
+                        and isinstance(Y.op, ast.Sub) and src(Y.right) == src(X.slice.lower)
+                    R.ob(rid_c, fn, s, ok, text=f'remainder {short(X)} recorded with length {short(Y)}', detail='' if ok else
+                         f'remainder `{short(X)}` and recorded length `{short(Y)}` do not agree', key_extra='len-agree:' + short(X))
+
+
+
 def check(P, R):
     R.rule('C06.a', 'look-ahead width equals the compared constant', floor=5)
     R.rule('C06.b', 'stop signal never reaches the error sink', floor=2)
@@ -386,6 +453,8 @@ def check(P, R):
                      f'correction is right only for the first chunk',
                      why='section offsets must not depend on the division into chunks')
     R.require(n_h >= 2, f'C06.h: {n_h} instances (2 on the pinned tree)')
+
+    check_extra_state(P, R, 'C06.e', 'C06.c')
 
     # ---- f
     br = P.func(f'{BM}:_body_read')
